@@ -5,7 +5,7 @@ ID = "C18"
 ML = "mC18"
 HARNESS = "harness/C18.c"
 SRCS = None
-EXTRA_LD = ["-Wl,--wrap=ppoll", "-Wl,--wrap=gettimeofday", "-Wl,--wrap=read"]
+EXTRA_LD = ["-Wl,--wrap=ppoll", "-Wl,--wrap=gettimeofday", "-Wl,--wrap=read", "-Wl,--wrap=waitpid"]
 LEVEL = "proof"      # evidence category; partial overall, see ASSUMPTIONS[0] and notes
 CASE_TIMEOUT = 0.02
 RULE = ("case = callback table + script over the real toplevel instance with the default event loop; ppoll is replaced at "
